@@ -95,15 +95,38 @@ def convert(t):
     else:
         raise SymPyException("Unable to convert " + str(t))
 
+def get_divisors(t):
+    """List of subterms of t that appear as a divisor."""
+    res = []
+    if t.is_divides():
+        res.append(t.arg)
+    if t.is_comb():
+        res.extend(get_divisors(t.fun))
+        res.extend(get_divisors(t.arg))
+    elif t.is_abs():
+        res.extend(get_divisors(t.body))
+    return res
+
 def solve_goal(goal):
     """Attempt to solve goal using sympy."""
+    # x / 0 = 0 in HOL, while sympy simplifies as if divisors are nonzero.
+    try:
+        for d in get_divisors(goal):
+            d = convert(d)
+            if not (d.is_number and d.is_zero is False):
+                return False
+    except SymPyException:
+        return False
+
     if goal.is_not() and goal.arg.is_equals():
         try:
             lhs, rhs = convert(goal.arg.lhs), convert(goal.arg.rhs)
         except SymPyException:
             return False
 
-        return lhs != rhs
+        # The two sides must differ for all values of the variables.
+        diff = sympy.simplify(lhs - rhs)
+        return bool(diff.is_number and diff.is_zero is False)
     elif goal.is_equals():
         try:
             lhs, rhs = convert(goal.lhs), convert(goal.rhs)
@@ -139,7 +162,15 @@ def solve_with_interval(goal, cond):
 
     var = convert(cond.arg1)
     interval = convert(cond.arg)
-    
+
+    # x / 0 = 0 in HOL: divisors must be nonzero on the interval.
+    try:
+        for d in get_divisors(goal):
+            if solveset_wrapper(convert(d), var, interval) != sympy.EmptySet:
+                return False
+    except (SymPyException, TypeError, NotImplementedError, RecursionError):
+        return False
+
     if goal.is_not() and goal.arg.is_equals():
         try:
             sympy_goal = convert(goal.arg.arg1) - convert(goal.arg.arg)
